@@ -572,3 +572,109 @@ func init() {
 			x.C.Count("fields of inserted record literals", n)
 		}})
 }
+
+func init() {
+	register(&Rule{ID: "DB.rmw", Min: 8, Text: "read-modify-write of a stored row (memory backend): a method that looks a row up in a table (txn.First) and then writes a row of the same record type back (txn.Insert) writes the row it loaded (its DeepCopy, modified) or a freshly built record — never the caller's own copy of the record (a parameter, or a DeepCopy of one): the caller read its copy before other requests ran, so writing it back undoes whatever they changed in the rest of the record (another document's attachment status, for ClientInfo)",
+		Run: func(x *Ctx) {
+			mem := x.P.Named("server/backend/database/memory.DB")
+			if mem == nil {
+				x.C.Unresolved(x.id(), "memory.DB")
+				return
+			}
+			n := 0
+			for _, fn := range x.P.FuncsIn("server/backend/database/memory") {
+				r := fn.Signature.Recv()
+				if r == nil || fn.Parent() != nil {
+					continue
+				}
+				if pt, ok := r.Type().(*types.Pointer); !ok || !isNamed(pt.Elem(), mem) {
+					continue
+				}
+				var firsts, inserts []ssa.CallInstruction
+				for _, c := range prog.CallsIn(fn) {
+					o := prog.CallObj(c)
+					if o == nil || o.Pkg() == nil || !strings.Contains(o.Pkg().Path(), "go-memdb") {
+						continue
+					}
+					switch o.Name() {
+					case "First":
+						firsts = append(firsts, c)
+					case "Insert":
+						inserts = append(inserts, c)
+					}
+				}
+				if len(firsts) == 0 || len(inserts) == 0 {
+					continue
+				}
+				tableOf := func(c ssa.CallInstruction) string {
+					s, _ := constString(paramArg(c, 0))
+					if u, ok := prog.Strip(paramArg(c, 0)).(*ssa.UnOp); ok && s == "" {
+						if g, isG := u.X.(*ssa.Global); isG {
+							s = g.Name()
+						}
+					}
+					if s == "" {
+						if k, ok := prog.Strip(paramArg(c, 0)).(*ssa.Const); ok && k.Value != nil {
+							s = k.Value.ExactString()
+						}
+					}
+					return s
+				}
+				for i, ins := range inserts {
+					tbl := tableOf(ins)
+					same := false
+					for _, f := range firsts {
+						if tableOf(f) == tbl && prog.MayPrecede(f, ins) {
+							same = true
+						}
+					}
+					if !same {
+						continue
+					}
+					obj := paramArg(ins, 1)
+					if mi, ok := obj.(*ssa.MakeInterface); ok {
+						obj = mi.X
+					}
+					n++
+					// the caller's copy: a parameter of the method, or DeepCopy of one
+					var bad string
+					var visit func(v ssa.Value, d int)
+					seen := map[ssa.Value]bool{}
+					visit = func(v ssa.Value, d int) {
+						v = prog.Strip(v)
+						if v == nil || seen[v] || d > 8 {
+							return
+						}
+						seen[v] = true
+						switch t := v.(type) {
+						case *ssa.Parameter:
+							if t.Parent() == fn && t != fn.Params[0] {
+								bad = "parameter " + t.Name()
+							}
+						case *ssa.Phi:
+							for _, e := range t.Edges {
+								visit(e, d+1)
+							}
+						case *ssa.Call:
+							if o := prog.CallObj(t); o != nil && o.Name() == "DeepCopy" && len(t.Call.Args) > 0 {
+								visit(t.Call.Args[0], d+1)
+							}
+						case *ssa.UnOp:
+							if al, ok := t.X.(*ssa.Alloc); ok {
+								for _, rf := range *al.Referrers() {
+									if st, isSt := rf.(*ssa.Store); isSt && st.Addr == ssa.Value(al) {
+										visit(st.Val, d+1)
+									}
+								}
+							}
+						}
+					}
+					visit(obj, 0)
+					x.check(bad == "", fmt.Sprintf("method=%s insert#%d(%s) writes-the-loaded-row", fn.Name(), i+1, tbl), x.pos(ins), "the row written back is the loaded one or a fresh record", "after looking the row up, the method writes back the caller's own copy ("+bad+"): every field of the record that another request changed since the caller read it is silently reverted")
+				}
+			}
+			if n < 8 {
+				x.C.Vacuous(x.id()+" read-modify-write inserts", n, 8)
+			}
+		}})
+}
